@@ -220,6 +220,25 @@ func (q *checker) tcheckStatement(n *a.Node) error {
 			if err := q.tcheckLoop(n); err != nil {
 				return err
 			}
+			// The body cannot assign to the iterate variables: every iteration
+			// assumes that they are exactly n.Length() long and the generated
+			// code advances them by itself.
+			for _, o := range n.Assigns() {
+				iterVar := o.AsAssign().LHS()
+				for _, s := range n.Body() {
+					if err := s.Walk(func(inner *a.Node) error {
+						if inner.Kind() != a.KAssign {
+							return nil
+						} else if lhs := inner.AsAssign().LHS(); (lhs != nil) && lhs.Eq(iterVar) {
+							return fmt.Errorf("check: cannot assign to iterate variable %q inside its iterate body",
+								iterVar.Str(q.tm))
+						}
+						return nil
+					}); err != nil {
+						return err
+					}
+				}
+			}
 		}
 		for n := n.AsIterate(); n != nil; n = n.ElseIterate() {
 			setPlaceholderMBoundsMType(n.AsNode())
